@@ -292,6 +292,7 @@ pub struct Obs {
     pub flow: String,
     pub flows: String,
     pub turn_idx: String,
+    pub eval_stack: String,
     pub prev_random: String,
     pub story_seed: String,
     pub visit_counts: String,
@@ -335,6 +336,7 @@ impl Obs {
         cmp!("flow", self.flow, other.flow);
         cmp!("flows", self.flows, other.flows);
         cmp!("turn_idx", self.turn_idx, other.turn_idx);
+        cmp!("eval_stack", self.eval_stack, other.eval_stack);
         cmp!("prev_random", self.prev_random, other.prev_random);
         cmp!("story_seed", self.story_seed, other.story_seed);
         cmp!("visit_counts", self.visit_counts, other.visit_counts);
@@ -658,7 +660,9 @@ impl<'p> Host<'p> {
             };
             let use_plain = p.is_none() && finish_plain;
             let r = if use_plain {
-                seams::clock_begin_call(0, 0, 0);
+                // time passes while the blocking call runs (2.5 ms per clock read): a blocking
+                // continue has no time limit, so it must not care
+                seams::clock_begin_call(0, 0, 2_500_000);
                 self.guard(|s| s.cont().map(|_| ()))
             } else {
                 seams::clock_begin_call(p.unwrap_or(0) as u64, jump_ns, 0);
@@ -988,6 +992,32 @@ impl<'p> Host<'p> {
                 let r = *reset;
                 unit(self.guard(|s| s.choose_path_string("no\"such\\knot.^.-1.\u{1F600}", r, None)))
             }
+            JumpInsideFunction => {
+                // only a rejected call when the current call-stack element is a function
+                let inside = self
+                    .save_text()
+                    .ok()
+                    .and_then(|s| serde_json::from_str::<J>(&s).ok())
+                    .map(|j| {
+                        let flow = j["currentFlowName"].as_str().unwrap_or("DEFAULT_FLOW").to_string();
+                        j["flows"][&flow]["callstack"]["threads"]
+                            .as_array()
+                            .and_then(|t| t.last())
+                            .and_then(|t| t["callstack"].as_array())
+                            .and_then(|c| c.last())
+                            .map(|e| e["type"] == 1)
+                            .unwrap_or(false)
+                    })
+                    .unwrap_or(false);
+                let target = self.prog.info.knots.iter().find(|k| !crate::script::is_function(self.prog, k)).cloned();
+                match (inside, target) {
+                    (true, Some(t)) => {
+                        let args = vec![ValueType::Int(7), ValueType::new::<&str>("stale")];
+                        unit(self.guard(|s| s.choose_path_string(&t, false, Some(&args))))
+                    }
+                    _ => Res::Noop,
+                }
+            }
             RemoveMissingFlow => unit(self.guard(|s| s.remove_flow("__no_such_flow__"))),
             RemoveDefaultFlow => unit(self.guard(|s| s.remove_flow("DEFAULT_FLOW"))),
             RemoveUnregisteredObserver { specific } => {
@@ -1069,6 +1099,7 @@ impl<'p> Host<'p> {
                         fl.sort();
                         o.flows = fl.join(",");
                         o.turn_idx = j.get("turnIdx").map(|x| x.to_string()).unwrap_or_default();
+                        o.eval_stack = j.get("evalStack").map(canon).unwrap_or_default();
                         o.prev_random = j.get("previousRandom").map(|x| x.to_string()).unwrap_or_default();
                         o.story_seed = j.get("storySeed").map(|x| x.to_string()).unwrap_or_default();
                         o.visit_counts = j.get("visitCounts").map(canon).unwrap_or_default();
